@@ -694,3 +694,23 @@ def oracle_c08(case):
                 out.append(fail(i, "cached output names another passage"))
         prev = st
     return out
+
+
+# ------------------------------------------------------------------------------------ C01
+
+LOOP_ONLY_NAMES = ("it", "w", "k", "v")      # the generator binds these as loop variables only
+
+
+def oracle_c01(case):
+    """'the loop variable is temporary': after a call that did not raise, no loop-only name is a story variable"""
+    real = case["real"]
+    if real.get("status") != "ok":
+        return []
+    out = []
+    for i, (op, step) in enumerate(zip(case["ops"], real["steps"])):
+        if "raise" in step["resp"]:
+            continue
+        left = [n for n in LOOP_ONLY_NAMES if n in step["state"]["vars"]]
+        if left and not any(n in (real["steps"][i - 1]["state"]["vars"] if i else real["init"]["vars"]) for n in left):
+            out.append(fail(i, f"loop variable(s) {left} still exist as story variables after {op['op']}"))
+    return out
